@@ -182,9 +182,11 @@ def wire_ops(ops, table):
         elif t == "C":
             out.append("C%d,%d" % (o[1], o[2]))
         elif t == "A":
-            out.append("A")
+            out.append("A")                      # append / extend / += / append_renumber: one meaning
         elif t == "R":
-            out.append("R%d" % o[1])
+            out.append("R%d" % o[1])             # remove / del / pop: one meaning
+        elif t == "S":
+            out.append("S%s,%d" % (o[1], table.id(Fraction(o[2]))))
         elif t == "O":
             out.append("O" + ",".join(map(str, o[1])))
         elif t == "I":
@@ -312,10 +314,28 @@ def apply_op(pr, env, o):
         c.number = o[2]
         env["scratch"] = c
     elif t == "A":
-        pr.cells.append(env["scratch"])
+        how = o[1] if len(o) > 1 else "append"
+        c = env["scratch"]
+        if how == "extend":
+            pr.cells.extend([c])
+        elif how == "iadd":
+            cells = pr.cells
+            cells += [c]
+        elif how == "renumber":
+            pr.cells.append_renumber(c)
+        else:
+            pr.cells.append(c)
         env["scratch"] = None
     elif t == "R":
-        pr.cells.remove(pr.cells[o[1]])
+        how = o[2] if len(o) > 2 else "remove"
+        if how == "del":
+            del pr.cells[o[1]]
+        elif how == "pop":
+            pr.cells.pop(list(pr.cells).index(pr.cells[o[1]]))
+        else:
+            pr.cells.remove(pr.cells[o[1]])
+    elif t == "S":
+        target(o[1]).importance.all = float(Fraction(o[2]))
     elif t == "O":
         pr.cells = [pr.cells[n] for n in o[1]]
     elif t == "I":
@@ -350,12 +370,23 @@ def api_view(pr, mode_ids):
     return out
 
 
+def sign_view(pr):
+    """cell number -> cell.not_truncated (the minus sign of U), for cells in a universe other than 0"""
+    out = {}
+    for c in pr.cells:
+        if c.universe is not None and c.universe.number != 0:
+            out[c.number] = bool(c.not_truncated)
+    return out
+
+
 def real_mode(pr):
     return [pid(p.value) for p in pr.mode.particles]
 
 
-def run_real(case):
-    """-> dict(read_error | oplog, api, flags, mode, write_error | out)"""
+def run_real(case, probe_first=True):
+    """-> dict(read_error | oplog, api, flags, mode, write_error | out)
+    probe_first=False: nothing is read from the objects between the last statement and write_to_file (a probe can
+    repair or corrupt the state a defect depends on); the API view is then taken after the write"""
     try:
         pr = mp.read_problem(case["text"])
     except Exception as e:
@@ -369,18 +400,30 @@ def run_real(case):
         except Exception as e:
             log.append(exc_class(e))
     mode = real_mode(pr)
-    res = {"oplog": log, "mode": mode, "pr": pr,
+    res = {"oplog": log, "mode": mode,
            "flags": {k: bool(pr.print_in_data_block[k]) for k in CLASSES}}
+
+    def take_api(key):
+        try:
+            res[key] = api_view(pr, mode)
+        except Exception as e:
+            res[key + "_error"] = exc_class(e)
+            res[key] = None
+    if probe_first:
+        take_api("api")
     try:
-        res["api"] = api_view(pr, mode)
-    except Exception as e:
-        res["api_error"] = exc_class(e)
-        res["api"] = None
+        res["signs"] = sign_view(pr)
+    except Exception:
+        res["signs"] = None
     try:
         res["out"] = mp.write_problem(pr, "c09.i")
     except Exception as e:
         res["write_error"] = exc_class(e)
         res["write_error_text"] = str(e)[:200]
+    if probe_first:
+        take_api("api_after_write")
+    else:
+        take_api("api")
     return res
 
 
@@ -549,6 +592,7 @@ def gen_c09(rng):
                     lat[host] = rng.choice([1, 1, 2])
         if place["fill"] == "cell" and rng.random() < 0.12:
             tr[nums[0]] = rng.choice(["(1 0 0)", "(0 0 2.5)"])
+    negu = {c for c in univ if rng.random() < 0.15}       # "not truncated": written with a minus sign
     imps = {c: {p: rng.choice(IMP_CHOICES) for p in particles} for c in nums}
     if rng.random() < 0.4:
         for c in nums:
@@ -576,7 +620,7 @@ def gen_c09(rng):
         if c in vols and place["vol"] == "cell":
             params.append(kw("vol") + "=" + vols[c])
         if c in univ and place["u"] == "cell":
-            params.append(kw("u") + "=" + str(univ[c]))
+            params.append(kw("u") + "=" + ("-" if c in negu else "") + str(univ[c]))
         if c in lat and place["lat"] == "cell":
             params.append(kw("lat") + "=" + str(lat[c]))
         if c in fill and place["fill"] == "cell":
@@ -597,7 +641,7 @@ def gen_c09(rng):
                 mods.append(" ".join([kw("imp:" + p)] + compress_vec(rng, vecs[p])))
     for k, d in (("vol", vols), ("u", univ), ("lat", lat), ("fill", fill)):
         if place[k] == "data" and d:
-            toks = [str(d[c]) if c in d else "j" for c in nums]
+            toks = [("-" if k == "u" and c in negu else "") + str(d[c]) if c in d else "j" for c in nums]
             if rng.random() < 0.5:
                 while toks and toks[-1] == "j":
                     toks.pop()
@@ -662,7 +706,7 @@ def gen_program(rng, meta, length=None):
                 ops.append(["G", "s", rng.choice(univs)])
             if rng.random() < (0.4 if place.get("lat") == "data" and has.get("lat") else 0.05):
                 ops.append(["L", "s", rng.choice([1, 2])])
-            ops.append(["A"])
+            ops.append(["A", rng.choice(["append", "append", "extend", "iadd", "renumber"])])
             for o in post:
                 ops.append(["I", n] + o[2:])
             if univs and rng.random() < 0.3:
@@ -674,13 +718,13 @@ def gen_program(rng, meta, length=None):
             ops.append(["C", src, n])
             if rng.random() < 0.3:
                 ops.append(["I", "s", rng.choice(parts), rng.choice(["1", "3"])])
-            ops.append(["A"])
+            ops.append(["A", rng.choice(["append", "append", "extend", "iadd", "renumber"])])
             cells.append(n)
             if src in deleted_vol:
                 deleted_vol.add(n)
         elif r < 0.40 and len(cells) > 1:              # remove
             n = rng.choice(cells)
-            ops.append(["R", n])
+            ops.append(["R", n, rng.choice(["remove", "remove", "del", "pop"])])
             cells.remove(n)
         elif r < 0.50 and len(cells) > 1:              # reorder (through the cells setter)
             order = list(cells)
@@ -693,6 +737,8 @@ def gen_program(rng, meta, length=None):
             n = rng.choice(cells)
             q = rng.choice(parts) if rng.random() < 0.9 else rng.choice(["n", "p", "e"])
             ops.append(["I", n, q, rng.choice(["1", "2", "0", "0.5", "8"])])
+        elif r < 0.64 and cells:
+            ops.append(["S", rng.choice(cells), rng.choice(["1", "2", "0", "0.5"])])
         elif r < 0.66 and cells:
             n = rng.choice(cells)
             q = rng.choice(parts)
@@ -742,11 +788,11 @@ def targeted_programs(rng, meta):
         app += [["U", "s", univs[0]]]
         if len(univs) > 1:
             app += [["G", "s", univs[-1]], ["L", "s", 1]]
-    out.append(("append", app + [["A"]]))
+    out.append(("append", app + [["A", rng.choice(["append", "extend", "iadd", "renumber"])]]))
     out.append(("append-then-set", [["N", new], ["A"]] + [["I", new, q, "2"] for q in parts] + [["V", new, "7.25"]]))
     if len(cells) > 1:
-        out.append(("remove-last", [["R", cells[-1]]]))
-        out.append(("remove-first", [["R", cells[0]]]))
+        out.append(("remove-last", [["R", cells[-1], rng.choice(["remove", "del", "pop"])]]))
+        out.append(("remove-first", [["R", cells[0], rng.choice(["remove", "del", "pop"])]]))
         out.append(("reverse", [["O", list(reversed(cells))]]))
         out.append(("rotate-append", [["O", cells[1:] + cells[:1]]] + app + [["A"]]))
     edit = []
@@ -755,6 +801,7 @@ def targeted_programs(rng, meta):
         if univs:
             edit += [["U", n, rng.choice(univs)]]
     out.append(("edit-ends", edit))
+    out.append(("set-all", [["S", cells[-1], "4"], ["I", cells[0], parts[0], "3"], ["S", cells[0], "0.5"]]))
     return out
 
 
@@ -774,6 +821,8 @@ def oracle(real, reread=True):
     api = real["api"]
     if api is None:
         return {"kind": "api-raises", "detail": real.get("api_error")}
+    if "api_after_write" in real and real["api_after_write"] != api:
+        return {"kind": "write-changes-api", "detail": [api, real["api_after_write"]]}
     out = real["out"]
     flags = real["flags"]
     mode = real["mode"]
@@ -845,6 +894,15 @@ def oracle(real, reread=True):
     for q, vec in vectors["imp"]:
         if q not in mode:
             return {"kind": "spurious-datum", "detail": ["data block imp:%s" % pletter(q), "particle not in MODE"]}
+    # the minus sign of U (cell.not_truncated) goes where the universe goes
+    signs = real.get("signs")
+    if signs:
+        for i, (c, a) in enumerate(zip(cells, api)):
+            if a[0] in signs:
+                vals = [num(v[0]) for v in c["u"] if v] + [vec[i] for _, vec in vectors["u"] if vec[i] != "J"]
+                for x in vals:
+                    if x != 0 and (x < 0) != signs[a[0]]:
+                        return {"kind": "u-sign", "detail": ["cell %d" % a[0], "not_truncated", signs[a[0]], "written", str(x)]}
     for k in CLASSES:
         qs = [q for q, _ in vectors[k]]
         if len(qs) != len(set(qs)):
@@ -928,11 +986,35 @@ def read_oracle(text):
             return {"kind": "read-differs", "detail": ["cell %d" % g[0], "api after read", g, "input means", w]}
     if len(got) != len(want):
         return {"kind": "read-differs", "detail": ["number of cells", len(got), len(want)]}
+    try:
+        signs = sign_view(pr)
+    except Exception as e:
+        return {"kind": "api-raises-after-read", "detail": [exc_class(e), str(e)[:200]]}
+    wsign = denote_signs(text)
+    for n_, sg in signs.items():
+        if n_ in wsign and wsign[n_] != sg:
+            return {"kind": "read-differs", "detail": ["cell %d" % n_, "not_truncated", sg, "input sign negative", wsign[n_]]}
     return None
 
 
+def denote_signs(text):
+    """cell number -> the U entry of the input is negative (cell parameter, else the data-block vector)"""
+    _, cells, data, _ = describe(text)
+    uvec = None
+    for d in data:
+        if d[0] == "u":
+            uvec = d[2]
+    out = {}
+    for i, c in enumerate(cells):
+        if c["u"] and c["u"][0]:
+            out[c["num"]] = num(c["u"][0][0]) < 0
+        elif uvec is not None and i < len(uvec) and isinstance(uvec[i], Fraction):
+            out[c["num"]] = uvec[i] < 0
+    return out
+
+
 def check_case(case, reread=True):
-    real = run_real(case)
+    real = run_real(case, probe_first=case.get("probe_first", True))
     r = oracle(real, reread=reread)
     if r is None and not case.get("ops"):
         r = read_oracle(case["text"])
@@ -1048,7 +1130,10 @@ def replay(ctx, path):
     with open(path) as fh:
         c = json.load(fh)
     c = c.get("case", c)
-    case = {"text": c["text"], "ops": c["ops"]}
+    if c.get("kind") == "broken-obligation" or "text" not in c:
+        print("REPLAY property=C09: this file records a broken obligation, not a failing input; run ./check C09")
+        return 1
+    case = {"text": c["text"], "ops": c["ops"], "probe_first": c.get("probe_first", True)}
     r = check_case(case)
     if r is not None:
         print("REPLAY property=C09 still fails: %s %s" % (r["kind"], json.dumps(r["detail"], default=str)[:300]))
@@ -1060,7 +1145,7 @@ def replay(ctx, path):
 
 def run(ctx):
     quick = ctx.tier == "quick"
-    n_pairs = 30 if quick else 700
+    n_pairs = 30 if quick else 220
     # the order of write_to_file's steps is taken from the source on every run (Gen/Writer.v); Properties/C09.v
     # compares it with the order Model/Place.v assumes (C09_gen_writer_steps)
     try:
@@ -1078,7 +1163,7 @@ def run(ctx):
             "statements": {}, "statement_errors": {}, "write": {}, "flags_at_write": {k: {"cell": 0, "data": 0} for k in CLASSES},
             "oracle_failures": {}, "model_diag": {}, "deepcopy_unsupported": 0, "reread_checked": 0,
             "program_length": {}, "flag_assignment_position": {"start": 0, "end": 0}, "targeted": {},
-            "read_oracle_checked": 0}
+            "read_oracle_checked": 0, "second_pass_without_probes": 0}
 
     def bump(d, k, n=1):
         d[k] = d.get(k, 0) + n
@@ -1110,10 +1195,10 @@ def run(ctx):
             ops = flag_ops(bits) + prog if where == "start" else prog + flag_ops(bits)
             cases.append({"text": text, "ops": ops, "src": src, "bits": bits, "pair": i})
         # the histories the property names, one at a time: placement as read, everything in the data block,
-        # everything in the cell block (thorough: all 32)
+        # everything in the cell block (thorough: plus five random assignments)
         for name, tprog in targeted_programs(rng, meta):
             bump(dist["targeted"], name)
-            for bits in ([None, 31, 0] if quick else [None] + list(range(32))):
+            for bits in ([None, 31, 0] if quick else [None, 31, 0] + rng.sample(range(1, 31), 5)):
                 ops = tprog if bits is None else tprog + flag_ops(bits)
                 cases.append({"text": text, "ops": ops, "src": "targeted:" + name, "bits": bits, "pair": i})
         # either block means the same: the API after reading vs the independent reader's meaning of the input
@@ -1125,63 +1210,86 @@ def run(ctx):
                 bump(dist["oracle_failures"], f["kind"])
                 ctx.fail({"kind": f["kind"], "detail": json.loads(json.dumps(f["detail"], default=str)),
                           "case": {"text": text, "ops": []}})
-    # ---- the real code
-    reals, reqs, tabs, kept = [], [], [], []
-    for c in cases:
-        real = run_real(c)
-        if any(o[0] == "C" and e == "TypeError" for o, e in zip(c["ops"], real.get("oplog", []))):
-            dist["deepcopy_unsupported"] += 1        # copy.deepcopy of a cell fails for problems with some data inputs
-            continue
-        req, tab = request_of(c, mode_order=real.get("mode"))
-        kept.append(c)
-        reals.append(real)
-        reqs.append(req)
-        tabs.append(tab)
-    cases = kept
-    # ---- the model
-    answers = vlib.model_ask("Place", reqs)
-    nx, bad = vlib.vm_crosscheck("Place", reqs, answers, sample=30 if quick else 200, seed=ctx.seed)
-    if bad:
-        ctx.broken_obligations.append({"obligation": "extraction cross-check Place", "detail": bad[:2]})
     corr_bad = []
     n_fail = 0
-    for c, real, ans, tab in zip(cases, reals, answers, tabs):
-        ctx.cov["programs"] += 1
-        ctx.cov["disagreements_checked"] += 1
-        m = parse_answer(ans)
-        c["_diag"] = m.get("diag", "")
-        bump(dist["model_diag"], c["_diag"] or "clean")
-        for o, e in zip(c["ops"], real.get("oplog", [])):
-            bump(dist["statements"], o[0])
-            if e:
-                bump(dist["statement_errors"], e)
-        w = "read-error" if "read_error" in real else (real.get("write_error") or "written")
-        bump(dist["write"], w)
-        if "flags" in real:
-            for k in CLASSES:
-                bump(dist["flags_at_write"][k], "data" if real["flags"][k] else "cell")
-        ctx.count_case((c["text"], json.dumps(c["ops"])), nontrivial=(w == "written"))
-        d = compare(c, real, ans, tab)
-        if d:
-            corr_bad.append({"case": {"text": c["text"], "ops": c["ops"]}, "first": json.loads(json.dumps(d[0], default=str))})
-        # ---- oracle
-        rr = (not quick) or (c.get("bits") or 0) % 8 == 0 or c.get("src") == "corpus" or c.get("src", "").startswith("targeted")
-        dist["reread_checked"] += bool(rr and "out" in real)
-        f = oracle(real, reread=rr)
-        if f is not None:
-            n_fail += 1
-            bump(dist["oracle_failures"], f["kind"])
-            fc = {"kind": f["kind"], "detail": json.loads(json.dumps(f["detail"], default=str)),
-                  "case": {"text": c["text"], "ops": c["ops"], "_diag": c["_diag"]}}
-            if ctx.attribute(fc) is not None:
-                ctx.fail(fc)
-            elif len(ctx.violations) < 3:
-                small = shrink({"text": c["text"], "ops": c["ops"]}, f["kind"])
-                f2 = check_case(small) or f
-                ctx.fail({"kind": f2["kind"], "detail": json.loads(json.dumps(f2["detail"], default=str)), "case": small})
-        if len(ctx.cov["samples"]) < 4 and c.get("bits") in (None, 5, 26):
-            ctx.sample({"text": c["text"], "statements": c["ops"], "model_answer": ans[:400],
-                        "real_written": real.get("out", real.get("write_error"))})
+    all_reqs, all_answers = [], []
+
+    def process(cases):
+        """one chunk: the real code, the model, the comparison, the oracle"""
+        nonlocal n_fail
+        # ---- the real code
+        reals, reqs, tabs, kept = [], [], [], []
+        for c in cases:
+            real = run_real(c)
+            if any(o[0] == "C" and e == "TypeError" for o, e in zip(c["ops"], real.get("oplog", []))):
+                dist["deepcopy_unsupported"] += 1        # copy.deepcopy of a cell fails for problems with some data inputs
+                continue
+            req, tab = request_of(c, mode_order=real.get("mode"))
+            kept.append(c)
+            reals.append(real)
+            reqs.append(req)
+            tabs.append(tab)
+        cases = kept
+        # ---- the model
+        answers = vlib.model_ask("Place", reqs)
+        all_reqs.extend(reqs)
+        all_answers.extend(answers)
+        for c, real, ans, tab in zip(cases, reals, answers, tabs):
+            ctx.cov["programs"] += 1
+            ctx.cov["disagreements_checked"] += 1
+            m = parse_answer(ans)
+            c["_diag"] = m.get("diag", "")
+            bump(dist["model_diag"], c["_diag"] or "clean")
+            for o, e in zip(c["ops"], real.get("oplog", [])):
+                bump(dist["statements"], o[0])
+                if e:
+                    bump(dist["statement_errors"], e)
+            w = "read-error" if "read_error" in real else (real.get("write_error") or "written")
+            bump(dist["write"], w)
+            if "flags" in real:
+                for k in CLASSES:
+                    bump(dist["flags_at_write"][k], "data" if real["flags"][k] else "cell")
+            ctx.count_case((c["text"], json.dumps(c["ops"])), nontrivial=(w == "written"))
+            d = compare(c, real, ans, tab)
+            if d:
+                corr_bad.append({"case": {"text": c["text"], "ops": c["ops"]}, "first": json.loads(json.dumps(d[0], default=str))})
+            # ---- oracle
+            rr = (not quick) or (c.get("bits") or 0) % 8 == 0 or c.get("src") == "corpus" or c.get("src", "").startswith("targeted")
+            dist["reread_checked"] += bool(rr and "out" in real)
+            f = oracle(real, reread=rr)
+            if f is not None:
+                n_fail += 1
+                bump(dist["oracle_failures"], f["kind"])
+                fc = {"kind": f["kind"], "detail": json.loads(json.dumps(f["detail"], default=str)),
+                      "case": {"text": c["text"], "ops": c["ops"], "_diag": c["_diag"]}}
+                if ctx.attribute(fc) is not None:
+                    ctx.fail(fc)
+                elif len(ctx.violations) < 3:
+                    small = shrink({"text": c["text"], "ops": c["ops"]}, f["kind"])
+                    f2 = check_case(small) or f
+                    ctx.fail({"kind": f2["kind"], "detail": json.loads(json.dumps(f2["detail"], default=str)), "case": small})
+            # second pass: nothing read from the objects before write_to_file
+            if (c.get("bits") or 0) % 4 == 1 or c.get("src") == "corpus":
+                dist["second_pass_without_probes"] += 1
+                real2 = run_real(c, probe_first=False)
+                same = (real2.get("out") == real.get("out") and real2.get("write_error") == real.get("write_error")
+                        and real2.get("api") == real.get("api"))
+                if not same:
+                    bump(dist["oracle_failures"], "probe-changes-outcome")
+                    f2 = oracle(real2, reread=True) or {"kind": "probe-changes-outcome",
+                                                        "detail": [real.get("write_error") or "written",
+                                                                   real2.get("write_error") or "written"]}
+                    ctx.fail({"kind": f2["kind"], "detail": json.loads(json.dumps(f2["detail"], default=str)),
+                              "case": {"text": c["text"], "ops": c["ops"], "probe_first": False}})
+            if len(ctx.cov["samples"]) < 4 and c.get("bits") in (None, 5, 26):
+                ctx.sample({"text": c["text"], "statements": c["ops"], "model_answer": ans[:400],
+                            "real_written": real.get("out", real.get("write_error"))})
+
+    for k in range(0, len(cases), 1500):
+        process(cases[k:k + 1500])
+    nx, bad = vlib.vm_crosscheck("Place", all_reqs, all_answers, sample=30 if quick else 200, seed=ctx.seed)
+    if bad:
+        ctx.broken_obligations.append({"obligation": "extraction cross-check Place", "detail": bad[:2]})
     if corr_bad:
         first = corr_bad[0]
         small = first["case"]
@@ -1248,7 +1356,7 @@ def run(ctx):
                       "cases = (generated problem, program, flag assignment): every generated (problem, random program) pair "
                       "under all 32 assignments of print_in_data_block, plus the targeted histories (complete cell appended, "
                       "append then set, first / last cell removed, cells reversed, rotated + appended, both ends edited) under "
-                      "the placement as read / all data block / all cell block (thorough: all 32), plus one read-side case "
+                      "the placement as read / all data block / all cell block (thorough: plus five random assignments), plus one read-side case "
                       "per problem; problems: gen_c09 (all five classes, LAT/FILL/U consistent) and gen.gen_problem with "
                       "data_mods on/off; distinct = distinct (text, statements); non-trivial = the problem was written "
                       "(no refusal, no crash)",
